@@ -79,4 +79,71 @@ theorem pipelines_waited_and_closed :
 /-- non-vacuity: `cat-file --batch` exits with 3 after delivering everything (the F9 scenario) -/
 example : (scan (fun _ => ["report"]) [⟨.discover, .ok, true⟩, ⟨.revList, .ok, true⟩, ⟨.catFileBatch, .exit 3, true⟩]).exit = 1 := by decide
 
+
+/-! ## the control flow of `mainImplementation`, REGENERATED (git-sizer.go)
+
+`Gen.Cmds.mainFlow` lists in source order every `return <error>`, `return nil`, every statement that
+writes to `stdout` and the scan, each with its branch path. The all-or-nothing shape of a run is a
+decidable property of that list: nothing is written to stdout before the scan has succeeded (the
+`--version` block apart), and once something was written no error can be returned any more, except
+the failure of that very write. -/
+
+abbrev Ev := String × String × List (String × String)
+
+/-- two branch paths exclude each other: at the first difference they sit in different branches of
+    the same `if` / `switch` -/
+def exclusive : List (String × String) → List (String × String) → Bool
+  | a :: as, b :: bs => if a == b then exclusive as bs else (a.1 == b.1 && a.2 != b.2 && a.2 != "loop")
+  | _, _ => false
+
+/-- is `p` a prefix of `q` -/
+def isPrefixPath : List (String × String) → List (String × String) → Bool
+  | [], _ => true
+  | a :: as, b :: bs => a == b && isPrefixPath as bs
+  | _ :: _, [] => false
+
+/-- the branch path of the block guarded by `if version` -/
+def versionBlock (flow : List Ev) : List (List (String × String)) :=
+  flow.filterMap (fun e => if e.1 == "if" && e.2.1 == "version" then
+    some (e.2.2.map (fun c => if c.2 == "" then (c.1, "t") else c)) else none)
+
+def scanPos (flow : List Ev) : Nat := (flow.findIdx? (fun e => e.1 == "scan")).getD flow.length
+
+/-- the check, event by event -/
+def flowOK (flow : List Ev) : Bool :=
+  let idx := (List.range flow.length).zip flow
+  idx.all (fun ke =>
+    let k := ke.1
+    let e := ke.2
+    if e.1 == "stdout" then
+      if k < scanPos flow then
+        -- before the scan: only inside `if version { … return nil }`
+        (versionBlock flow).any (fun vb => isPrefixPath vb e.2.2)
+      else
+        -- after the scan: every later error return is on an excluded branch, or it is the
+        -- `if err != nil` of this very write statement
+        idx.all (fun jr =>
+          let j := jr.1
+          let r := jr.2
+          if j > k && r.1 == "ret-err" then
+            exclusive e.2.2 r.2.2 || (isPrefixPath e.2.2 r.2.2 && j == k + 2 && r.2.2.length == e.2.2.length + 1)
+          else true)
+    else true)
+
+/-- **no report before the scan has succeeded; no failure after a report was written** -/
+theorem main_flow_all_or_nothing : flowOK Gen.Cmds.mainFlow = true := by decide +kernel
+
+/-- the scan happens exactly once, outside every branch and loop, and its error is returned -/
+theorem scan_once_and_checked :
+    (Gen.Cmds.mainFlow.filter (fun e => e.1 == "scan")).map (fun e => e.2.2) = [[]] ∧
+    (Gen.Cmds.mainFlow.drop (scanPos Gen.Cmds.mainFlow + 1)).head?.map (fun e => (e.1, e.2.1)) = some ("if", "err != nil") := by
+  decide
+
+/-- the function ends with `return nil` at top level, and the two report writers are the two
+    branches of `if jsonOutput` -/
+theorem report_writers :
+    (Gen.Cmds.mainFlow.getLast?).map (fun e => (e.1, e.2.2)) = some ("ret-nil", []) ∧
+    ((Gen.Cmds.mainFlow.filter (fun e => e.1 == "stdout")).drop 2).map (fun e => e.2.2.map (·.2)) = [["t"], ["e"]] := by
+  decide
+
 end GitSizer.C10
